@@ -796,7 +796,7 @@ def run(chk, tier):
         chk.analysis_broken('DEPNAME: fewer than 10 member accesses on objects of a chrono class template found (floor 10)')
     from ..rules import extra12 as _X12
     if _X12.unconditional_area(chk, db, ['_chrono/duration.hpp', '_chrono/time_point.hpp']) < 8:      # UNCOND
-        chk.analysis_broken('UNCOND: fewer than 8 compound operators of duration / time_point found (floor 8)')
+        chk.unknown_instance('UNCOND', 'etl::chrono::duration', 'fewer than 8 compound operators found')
     from ..rules import rel as _REL
     nrel = _REL.check(chk, db, ["_chrono/time_point.hpp", "_chrono/duration.hpp"])      # REL: the relational operators over the ordering domain
     if chk.rule_instances.get("REL", 0) < 8:
